@@ -369,6 +369,7 @@ class IntRange(DataType):
             # the following loop will not cycle more than the number of Enum elements
             for i in range(self.min, self.max + 1):
                 other(i)
+            return
         raise WrongTypeError('incompatible datatypes')
 
 
